@@ -54,6 +54,16 @@ def choose(decisions, side):
     return out
 
 
+@vlib.classifier('numeric-alias-side')
+def _cls_alias_side(data, finding):
+    """F-eq seen through the decisions: the chosen side is reproduced up to numbers that Python's == identifies"""
+    from checks.c02 import norm_alias
+    if data.get('kind') != 'side-differs' or data.get('side') not in ('local', 'remote'):
+        return False
+    got, want = dec(data['got']), dec(data['l' if data['side'] == 'local' else 'r'])
+    return canon(got) != canon(want) and canon(norm_alias(got)) == canon(norm_alias(want))
+
+
 @vlib.classifier('takemax-schema')
 def _cls_takemax(data, finding):
     return data.get('kind') == 'schema' and data.get('bad_actions') == ['take_max']
